@@ -211,7 +211,8 @@ static void case_decaps(struct vh_rng *r)
     /* model */
     int last_cc = -1;                    /* continuity counter of the last packet seen */
     const struct gpkt *last_pl = NULL;   /* last payload packet delivered */
-    bool pending_gap = false, pending_masked = false;
+    bool pending_gap = false;
+    int pending_masked = 0;     /* 1: counter jumped, 2: counter advanced by one on a payload-less packet */
     size_t expect_idx = 0;
     int exp_pcr = 0;
     for (int i = 0; i < ng; i++) {
@@ -223,7 +224,13 @@ static void case_decaps(struct vh_rng *r)
         if (!d->has_payload) {
             /* the counter is not incremented on payload-less packets */
             if (d->af_disc) { may_disc = true; }
-            else if (last_cc != -1 && d->cc != last_cc) { pending_gap = true; pending_masked = true; VH_COUNT("model.gap_seen_on_payloadless_packet"); }
+            else if (last_cc != -1 && d->cc != last_cc) {
+                /* 2.4.3.3: the counter is not incremented without payload, so
+                 * any other value than the previous one reveals a loss */
+                pending_gap = true;
+                pending_masked = d->cc == ((last_cc + 1) & 0xf) ? 2 : 1;
+                VH_COUNT("model.gap_seen_on_payloadless_packet");
+            }
             last_cc = d->cc;
         } else {
             bool is_dup = last_cc != -1 && d->cc == last_cc && last_pl != NULL &&
@@ -240,6 +247,7 @@ static void case_decaps(struct vh_rng *r)
         }
         size_t before = sink->n;
         struct uref *u = tsl_uref_from_bytes_rnd(r, k->b, TSR_SIZE);
+        if (vh_opts.verbose) vh_tr("#%d cc%u %s%s%s", i, d->cc, d->has_payload ? "P" : "-", k->dup ? "dup" : "", d->af_disc ? "D" : "");
         upipe_input(dec, u, NULL);
         size_t got = sink->n - before;
         if (!expect_out) {
@@ -268,17 +276,21 @@ static void case_decaps(struct vh_rng *r)
                          i, d->af_rai, !!(o->flags & TSL_F_RANDOM));
         bool disc = !!(o->flags & TSL_F_DISC);
         if ((gap || pending_gap) && !disc) {
-            if (!gap && pending_masked)
-                vh_violation("c15:decaps:gap-not-flagged:seen-on-payloadless-packet",
-                             "packet %d (cc %u): the counter gap was visible on a preceding payload-less packet "
-                             "(cc not equal to the previous one) but no output carries the discontinuity flag", i, d->cc);
+            if (!gap && pending_masked == 1)
+                vh_violation("c15:decaps:gap-not-flagged:jump-seen-on-payloadless-packet",
+                             "packet %d (cc %u): a preceding payload-less packet carried a counter that was neither the previous value "
+                             "nor its successor (packets lost), but no output carries the discontinuity flag", i, d->cc);
+            if (!gap && pending_masked == 2)
+                vh_violation("c15:decaps:gap-not-flagged:payloadless-packet-with-advanced-counter",
+                             "packet %d (cc %u): a preceding payload-less packet carried the successor of the previous counter instead of "
+                             "repeating it (2.4.3.3: a payload packet was lost), but no output carries the discontinuity flag", i, d->cc);
             vh_violation("c15:decaps:gap-not-flagged", "packet %d (cc %u): counter gap but no discontinuity flag", i, d->cc);
         }
         if (gap || pending_gap) VH_COUNT("decaps.discontinuity_flagged_on_gap");
         if (disc && !gap && !pending_gap && !may_disc && expect_idx > 0)
             vh_violation("c15:decaps:spurious-discontinuity",
                          "packet %d (cc %u after %d): discontinuity flagged without counter gap", i, d->cc, last_cc);
-        pending_gap = pending_masked = false;
+        pending_gap = false; pending_masked = 0;
         expect_idx++;
     }
     tsl_event_hook = NULL;
